@@ -111,12 +111,39 @@ func genC14(r *Rng, tier string) *Plan {
 	for i := 0; i < steps; i++ {
 		t := g.ent(Pick(r, g.Ents).ID)
 		flags := DefaultFlags
-		reasons := []string{"edit-subject", "edit-keyalg", "touch-o", "all", "strip-cert", "strip-hash-touch", "issuer-edit", "issuer-replaced"}
+		reasons := []string{"edit-subject", "edit-keyalg", "touch-o", "all", "strip-cert", "strip-hash-touch", "issuer-edit", "issuer-replaced", "refused-then-fixed"}
 		if expT != nil {
 			reasons = append(reasons, "expiry", "expiry")
 		}
 		reason := Pick(r, reasons)
 		switch reason {
+		case "refused-then-fixed":
+			// a run that is refused while this entity is being signed (its algorithm does not fit the
+			// signing key), then the mistake is corrected: whatever key or request the artifact held
+			// is still there for the run that succeeds
+			signerFam := fam[t.ID]
+			if t.Issuer != "" {
+				signerFam = fam[g.byAlias(t.Issuer).ID]
+			}
+			bad := editSubject(r, t)
+			if signerFam == "rsa" {
+				bad.SigAlg = Pick(r, ecSigAlgs)
+			} else {
+				bad.SigAlg = Pick(r, rsaSigAlgs)
+			}
+			g.P.Add(Op{K: "put-ent", Spec: bad, Label: "sigalg-mismatch"})
+			g.Run(DefaultFlags, "regen", "may-fail")
+			good := bad.Clone()
+			good.SigAlg = t.SigAlg
+			if good.SigAlg == "" || good.SigAlg == bad.SigAlg {
+				if signerFam == "rsa" {
+					good.SigAlg = Pick(r, rsaSigAlgs)
+				} else {
+					good.SigAlg = Pick(r, ecSigAlgs)
+				}
+			}
+			g.setEnt(good)
+			g.P.Add(Op{K: "put-ent", Spec: good, Label: "sigalg-fixed"})
 		case "edit-subject":
 			ne := editSubject(r, t)
 			g.setEnt(ne)
@@ -262,6 +289,10 @@ func (o *c14Oracle) AfterRun(w *World, op *Op, res *RunResult) {
 				}
 			}
 		}
+	}
+	if !res.OK() && op.HasTag("may-fail") {
+		w.Hit("refused-run")
+		return
 	}
 	if !res.OK() && w.Plan.Meta["big-oid"] != "" {
 		// a configuration with an OID arc beyond 2^31: refusing it is gopki's right
